@@ -535,7 +535,9 @@ class StmtMixin:
         ax = z3.Implies(at(passing, i0), z3.And(at(passing, li), keyf(li) == keyf(i0), i0 <= li))
         st.assume(z3.ForAll([i0], ax, patterns=[li]))
         if getattr(self.c, "comp_lastpos_free", False):
-            st.assume(z3.ForAll([i0], ax))  # the same with the solver's own triggers (can be a matching loop)
+            # the same over the raw key term, with the solver's own triggers (goals about source positions; can be a matching loop)
+            lr = last(at(kterm, i0))
+            st.assume(z3.ForAll([i0], z3.Implies(at(passing, i0), z3.And(at(passing, lr), at(kterm, lr) == at(kterm, i0), i0 <= lr))))
         # direct consequence: the key of every passing position is in the domain
         st.assume(z3.ForAll([i0], z3.Implies(at(passing, i0), z3.Select(dom, keyf(i0))), patterns=[keyf(i0)]))
         # the same, keyed by the result's keys (the form that goals about `k in result` instantiate)
